@@ -67,24 +67,34 @@ def r2(ctx):
         raise AnchorMissing("SubscriptionList.find")
     ev = Evaluator(prog, m, sl)
     a = [x.arg for x in f.args.args[1:]]
-    rets = [r for r in walk_shallow(f) if isinstance(r, ast.Return) and norm(r.value) == "cov"]
-    ok = len(rets) == 1
+    # decided on the paths of the method, one record examined: the record is returned exactly when all three keys are
+    # equal, None otherwise (return inside the loop, or break and return behind it - the paths are the same)
+    from .common import path_return_value
+    loops = [l for l in walk_shallow(f) if isinstance(l, ast.For)]
+    ok = len(loops) == 1 and isinstance(loops[0].target, ast.Name) and norm(loops[0].iter) == "self.cov_subscriptions"
     if ok:
-        # the condition under which the record is returned, with locals substituted
-        from .common import subst_locals
-        fa = facts_at(rets[0])
-        tests = [subst_locals(f, x.test) for x in fa if x.origin == "arm"]
-        ok = len(tests) == 1
-        if ok:
-            keys = [("cov.client_addr", a[0]), ("cov.proc_id", a[1]), ("cov.obj_id", a[2])]
-            res = []
-            for mask in range(8):
-                env = {}
-                for i, (k1, k2) in enumerate(keys):
-                    env[k1] = 1
-                    env[k2] = 1 if (mask >> i) & 1 else 2
-                res.append(ev.eval3(tests[0], env))
-            ok = res == [False] * 7 + [True]
+        rec = loops[0].target.id
+        keys = [("%s.client_addr" % rec, a[0]), ("%s.proc_id" % rec, a[1]), ("%s.obj_id" % rec, a[2])]
+        n_match = 0
+        paths = enumerate_paths(f)
+        for mask in range(8):
+            env = {rec: "<the record>"}
+            for i, (k1, k2) in enumerate(keys):
+                env[k1] = 1
+                env[k2] = 1 if (mask >> i) & 1 else 2
+            for p_ in paths:
+                kind, val = path_return_value(p_, ev, env)
+                if kind == "infeasible":
+                    continue
+                examined = any(e.kind == "loop1" for e in p_.events)
+                if kind != "value" or p_.term != "return":
+                    ok = False
+                elif mask == 7 and examined:
+                    n_match += 1
+                    ok = ok and val == "<the record>"
+                else:
+                    ok = ok and val is None
+        ok = ok and n_match >= 1
     ctx.check("SubscriptionList.find:key", ok, where(m, f), "a record matches only when subscriber address, process identifier and object identifier are all equal")
     c = prog.cls(MOD, "ChangeOfValueServices")
     evc = Evaluator(prog, m, c)
@@ -291,8 +301,27 @@ def r4(ctx):
     ctx.check("ChangeOfValueServices.add_subscription", ok, where(m, ad or c.node), "a new record goes to the detection of its object")
     # the active list is built from the live records
     sub = c.methods.get("subscriptions")
-    its = [norm(l.iter) for l in walk_shallow(sub) if isinstance(l, ast.For)] if sub else []
-    ctx.check("ChangeOfValueServices.subscriptions:live-records", its == ["self.cov_detections.items()", "cov_detection.cov_subscriptions"], where(m, sub or c.node), "the active-subscription list enumerates exactly the records of the live detections")
+    ok = False
+    if sub is not None:
+        outer = [l for l in sub.body if isinstance(l, ast.For)]
+        ys = [n for n in walk_shallow(sub) if isinstance(n, (ast.Yield, ast.YieldFrom))]
+        if len(outer) == 1 and len(ys) == 1:
+            o = outer[0]
+            it = norm(o.iter)
+            det = None
+            if it == "self.cov_detections.items()" and isinstance(o.target, ast.Tuple) and len(o.target.elts) == 2:
+                det = norm(o.target.elts[1])
+            elif it == "self.cov_detections.values()" and isinstance(o.target, ast.Name):
+                det = o.target.id
+            y = ys[0]
+            if det is not None and not facts_at(y, stop=o):
+                if isinstance(y, ast.YieldFrom):
+                    ok = norm(y.value) == "%s.cov_subscriptions" % det and not [l for l in enclosing_loops(y) if l is not o]
+                else:
+                    inner = [l for l in enclosing_loops(y) if l is not o]
+                    ok = len(inner) == 1 and norm(inner[0].iter) == "%s.cov_subscriptions" % det and isinstance(inner[0].target, ast.Name) \
+                        and y.value is not None and norm(y.value) == inner[0].target.id
+    ctx.check("ChangeOfValueServices.subscriptions:live-records", ok, where(m, sub or c.node), "the active-subscription list enumerates exactly the records of the live detections")
 
 
 @rule("C16.R5", "one notification per burst of changes; the increment filter reports a change of at least the increment since the last reported value; notifications go to every subscription, confirmed or not as requested", floor=8, engines="E1 + E5")
